@@ -22,6 +22,7 @@ from . import findings as F
 
 MAX_VIOL_PER_SHARD = 40
 MAX_OUTCOMES = 200000
+RECORD = bool(os.environ.get("VMC_RECORD_TABLES"))
 
 
 class Clause(object):
@@ -71,6 +72,7 @@ class Ctx(object):
         self.hits = {}              # finding id -> [count, maxdev, example]
         self.samples = []
         self.extra = {}
+        self.records = []
         self._h = hashlib.blake2b(digest_size=8)
 
     # -- counting ---------------------------------------------------------
@@ -106,6 +108,12 @@ class Ctx(object):
     # -- violations -------------------------------------------------------
     def viol(self, case, detail, dev=None, site=None):
         case = jsonable(case)
+        if RECORD:
+            fid = F.match(self.known, self.clause, site, case, dev, ignore_table=True)
+            if fid is not None:
+                for f in self.known:
+                    if f["id"] == fid and f.get("dev_table"):
+                        self.records.append((fid, F.table_key(f["dev_table"]["keys"], case, site), dev))
         fid = F.match(self.known, self.clause, site, case, dev)
         if fid is not None:
             h = self.hits.setdefault(fid, [0, None, None])
@@ -128,7 +136,7 @@ class Ctx(object):
             "outcomes": self.outcomes, "states": self.states,
             "transitions": self.transitions, "traces": self.traces,
             "nviol": self.nviol, "viols": self.viols, "hits": self.hits,
-            "samples": self.samples, "extra": self.extra,
+            "samples": self.samples, "extra": self.extra, "records": self.records,
             "digest": self._h.hexdigest(),
         }
 
@@ -211,7 +219,7 @@ def run_clauses(prop, clauses, seed=0, workers=None, selftest=True):
         merged[cl.name] = {"evals": 0, "nt": 0, "nt_keys": set(),
                            "outcomes": set(), "states": 0, "transitions": 0,
                            "traces": 0, "nviol": 0, "viols": [], "hits": {},
-                           "samples": [], "extra": {}, "shards": 0,
+                           "samples": [], "extra": {}, "shards": 0, "records": [],
                            "wall": 0.0, "floor": cl.floor, "shape": cl.shape}
     for d in sorted(results, key=lambda d: d["task"]):
         m = merged[d["clause"]]
@@ -236,6 +244,7 @@ def run_clauses(prop, clauses, seed=0, workers=None, selftest=True):
             if g[2] is None:
                 g[2] = h[2]
         m["samples"].extend(d["samples"])
+        m["records"].extend(d.get("records", []))
         for k, v in d["extra"].items():
             if k.startswith("max:"):
                 if k not in m["extra"] or v > m["extra"][k]:
